@@ -1,5 +1,6 @@
 import Dawn.Proofs.RunnerCycle
 import Dawn.Proofs.RunnerDeadlock
+import Dawn.Proofs.RunnerProgress
 /-!
 # Runner: remaining helper facts — stability of finished targets, schedules as witnesses of reachability
 -/
